@@ -172,6 +172,16 @@ func (dm *DMap) loadOrCreateFragment(part *partitions.Partition) (*fragment, err
 	return f, nil
 }
 
+// isFragmentRegistered reports whether f is still the fragment registered for this DMap on
+// the partition. The janitor removes an empty fragment while it holds the fragment's lock. A
+// writer looks the fragment up first and locks it afterwards: when the janitor ran in between,
+// the writer holds an orphan that no reader can reach, and has to look the fragment up again.
+// The caller must hold f's lock.
+func (dm *DMap) isFragmentRegistered(part *partitions.Partition, f *fragment) bool {
+	current, ok := part.Map().Load(dm.fragmentName)
+	return ok && current == interface{}(f)
+}
+
 func (dm *DMap) loadFragment(part *partitions.Partition) (*fragment, error) {
 	f, ok := part.Map().Load(dm.fragmentName)
 	if !ok {
